@@ -50,7 +50,20 @@ fn real_main() {
         Some("trace-structure") => {
             let inputs = cases::resolve_inputs(&get("inputs", "gen:100"), seed);
             let cfg = wv::run::Cfg::default();
-            let lines: Vec<_> = inputs.par_iter().map(|i| cases::structure_case(i, &cfg)).collect();
+            let xcfg = wv::run::Cfg { xform: true, ..Default::default() };
+            let lines: Vec<_> = inputs
+                .par_iter()
+                .enumerate()
+                .flat_map(|(k, i)| {
+                    let mut v = vec![cases::structure_case(i, &cfg)];
+                    if k % 5 == 0 && !i.source.starts_with("fam:") {
+                        let mut x = cases::structure_case(i, &xcfg);
+                        x["id"] = serde_json::json!(format!("{}~xform", x["id"].as_str().unwrap_or("")));
+                        v.push(x);
+                    }
+                    v
+                })
+                .collect();
             cases::write_lines(&out, &lines);
             println!("cases {}", lines.len());
         }
@@ -59,7 +72,22 @@ fn real_main() {
             let cfg = wv::run::Cfg::default();
             let gc: u32 = get("gc", "0").parse().unwrap();
             let shards: usize = get("shards", "1").parse().unwrap();
-            let lines: Vec<_> = inputs.par_iter().map(|i| cases::bodies_case(i, &cfg, gc)).collect();
+            // every fourth input (the operator sweep aside) is emitted with preserve_code_transform on as well: the code
+            // section is then assembled along another path
+            let xcfg = wv::run::Cfg { xform: true, ..Default::default() };
+            let lines: Vec<_> = inputs
+                .par_iter()
+                .enumerate()
+                .flat_map(|(k, i)| {
+                    let mut v = vec![cases::bodies_case(i, &cfg, gc)];
+                    if k % 4 == 0 && !i.source.starts_with("ops") {
+                        let mut x = cases::bodies_case(i, &xcfg, gc);
+                        x["id"] = serde_json::json!(format!("{}~xform", x["id"].as_str().unwrap_or("")));
+                        v.push(x);
+                    }
+                    v
+                })
+                .collect();
             // outcomes that are not "ok" are reported on a side channel (the matcher only sees bodies)
             let mut bad = vec![];
             let mut good = vec![];
@@ -147,7 +175,17 @@ fn real_main() {
         }
         Some("trace-maps") => {
             let inputs = cases::resolve_inputs(&get("inputs", "gen:100"), seed);
-            let lines: Vec<_> = inputs.par_iter().flat_map(|i| vec![cases::maps_case(i, 0), cases::maps_case(i, 1)]).collect();
+            let lines: Vec<_> = inputs
+                .par_iter()
+                .enumerate()
+                .flat_map(|(k, i)| {
+                    let mut v = vec![cases::maps_case(i, 0), cases::maps_case(i, 1)];
+                    if k % 3 == 0 {
+                        v.push(cases::maps_case_cfg(i, 0, true));
+                    }
+                    v
+                })
+                .collect();
             cases::write_lines(&out, &lines);
             println!("cases {}", lines.len());
         }
